@@ -3,7 +3,7 @@ from .. import common, instrument as ins, mon1, mon2, w2
 from . import _diff, _w1case, _w2case
 
 ID = "C08"
-KNOWN_CEILING = {'k5_weight': 0.01, 'k14_bankruptcy_date_float_order': 0.01}   # share of all evaluations a known finding may reach before it counts as a violation again
+KNOWN_CEILING = {'k5_weight': 0.01, 'k14_bankruptcy_date_float_order': 0.01, 'k15_position_read_before_liquidating_update': 0.01}   # share of all evaluations a known finding may reach before it counts as a violation again
 LEVEL = "exploration"
 RULE = ("W1: (a) raw private state + recorded frames identical after 1-3 redundant update calls (root and random strategy nodes) following "
         "every operation; (b) on deep copies of a tree with pending changes the FIRST read of one random property equals the read after an "
